@@ -3,21 +3,60 @@ From Coq Require Import List NArith Bool Lia.
 From MM Require Import Model.SleepSM.
 Import ListNotations.
 
-(** ** Edges: every atomic step of every thread moves the state along a
-    documented edge or leaves it alone (both code versions). *)
-Theorem step_edge_ok : forall gc s st s', exec gc s st = Some s' -> edge_ok (s_state s) (s_state s') = true.
+(** ** The state file and the state.  After every step of every interleaving,
+    including process restarts, the file holds the state, except that while
+    POLLING it may still say SLEEPING (the SLEEPING -> POLLING edge is not
+    written; a graceful Stop() during a poll does write POLLING). *)
+Definition pers_ok (s : sys) : Prop :=
+  s_persist s = s_state s \/ (s_state s = MPolling /\ s_persist s = MSleeping).
+
+Lemma step_pers_ok : forall gc s st s', exec gc s st = Some s' -> pers_ok s -> pers_ok s'.
 Proof.
-  intros gc s st s' H. destruct st as [| | |tid]; cbn [exec] in H.
+  intros gc s st s' H I. unfold pers_ok in *. destruct st as [| | |tid| |gr sr]; cbn [exec] in H.
+  - inversion H; subst; exact I.
+  - inversion H; subst; exact I.
+  - destruct (s_timer s); inversion H; subst; exact I.
+  - destruct (nth_error (s_threads s) tid) as [p|]; [|discriminate].
+    destruct p as [| | | | |g|g|r].
+    + destruct (lock_free s); [|discriminate]. destruct (s_state s) eqn:E; inversion H; subst; cbn; rewrite ?E; exact I.
+    + inversion H; subst; cbn. left; reflexivity.
+    + destruct (lock_free s); [|discriminate]. destruct (s_state s) eqn:E; inversion H; subst; cbn; rewrite ?E; exact I.
+    + inversion H; subst; cbn. left; reflexivity.
+    + destruct (lock_free s); [|discriminate]. destruct (s_state s) eqn:E; inversion H; subst; cbn; rewrite ?E; try exact I.
+      right. split; [reflexivity|]. destruct I as [I|[I _]]; [exact I|discriminate].
+    + inversion H; subst; exact I.
+    + destruct (lock_free s); [|discriminate].
+      destruct (mstate_eqb (s_state s) MAwake || (gc && negb (g =? s_gen s)%N)); inversion H; subst; cbn; [exact I|left; reflexivity].
+    + discriminate.
+  - inversion H; subst; exact I.
+  - inversion H; subst; cbn. left; reflexivity.
+Qed.
+
+Lemma run_pers_ok : forall gc tr s s', run gc s tr = Some s' -> pers_ok s -> pers_ok s'.
+Proof.
+  intros gc tr. induction tr as [|st r IH]; intros s s' H I; cbn [run] in H.
+  - inversion H; subst; exact I.
+  - destruct (exec gc s st) as [s1|] eqn:E; [|discriminate]. eapply IH; [exact H|]. eapply step_pers_ok; eauto.
+Qed.
+
+Lemma init_pers_ok : pers_ok init.
+Proof. left. reflexivity. Qed.
+
+(** ** Edges: every atomic step of every thread - and every restart - moves
+    the state along a documented edge or leaves it alone (both code versions). *)
+Lemma mstate_eqb_refl : forall m, mstate_eqb m m = true.
+Proof. destruct m; reflexivity. Qed.
+
+Theorem step_edge_ok : forall gc s st s', pers_ok s -> exec gc s st = Some s' -> edge_ok (s_state s) (s_state s') = true.
+Proof.
+  intros gc s st s' I H. destruct st as [| | |tid| |gr sr]; cbn [exec] in H.
   - inversion H; subst; cbn. destruct (s_state s); reflexivity.
   - inversion H; subst; cbn. destruct (s_state s); reflexivity.
   - destruct (s_timer s); inversion H; subst; cbn. destruct (s_state s); reflexivity.
   - destruct (nth_error (s_threads s) tid) as [p|]; [|discriminate].
     destruct p as [| | | | |g|g|r].
     + destruct (lock_free s); [|discriminate]. destruct (s_state s) eqn:E; inversion H; subst; cbn; rewrite ?E; reflexivity.
-    + inversion H; subst; cbn.
-      (* SleepInCb is only entered from AWAKE, but the edge AWAKE/SLEEPING/POLLING -> SLEEPING needs the invariant; see below *)
-      destruct (s_state s) eqn:E; try reflexivity.
-      (* POLLING -> SLEEPING is an edge; SLEEPING -> SLEEPING is no change; AWAKE -> SLEEPING is an edge *)
+    + inversion H; subst; cbn. destruct (s_state s) eqn:E; reflexivity.
     + destruct (lock_free s); [|discriminate]. destruct (s_state s) eqn:E; inversion H; subst; cbn; rewrite ?E; reflexivity.
     + inversion H; subst; cbn. destruct (s_state s); reflexivity.
     + destruct (lock_free s); [|discriminate]. destruct (s_state s) eqn:E; inversion H; subst; cbn; rewrite ?E; reflexivity.
@@ -27,12 +66,20 @@ Proof.
       * inversion H; subst; cbn. destruct (s_state s); reflexivity.
       * inversion H; subst; cbn. destruct (s_state s); reflexivity.
     + discriminate.
+  - inversion H; subst; cbn. destruct (s_state s); reflexivity.
+  - inversion H; subst; cbn. destruct gr.
+    + destruct (s_state s); reflexivity.
+    + destruct I as [I|[I1 I2]]; [rewrite I; destruct (s_state s); reflexivity|rewrite I1, I2; reflexivity].
 Qed.
 
-Theorem edges_allowed : forall gc tr s s', run gc s tr = Some s' ->
-  forall pre st post s1 s2, tr = pre ++ st :: post -> run gc s pre = Some s1 -> exec gc s1 st = Some s2 ->
+Theorem edges_allowed : forall gc tr s',
+  run gc init tr = Some s' ->
+  forall pre st post s1 s2, tr = pre ++ st :: post -> run gc init pre = Some s1 -> exec gc s1 st = Some s2 ->
   edge_ok (s_state s1) (s_state s2) = true.
-Proof. intros. eapply step_edge_ok; eauto. Qed.
+Proof.
+  intros gc tr s' _ pre st post s1 s2 _ Hpre Hst. eapply step_edge_ok; [|exact Hst].
+  eapply run_pers_ok; [exact Hpre|exact init_pers_ok].
+Qed.
 
 (** ** Refusals *)
 Theorem sleep_while_asleep_refused : forall gc s tid,
@@ -76,36 +123,17 @@ Proof.
 Qed.
 
 (** ** Persistence *)
-Lemma step_persist : forall gc s st s', exec gc s st = Some s' ->
-  collapse (s_state s) = s_persist s -> collapse (s_state s') = s_persist s'.
-Proof.
-  intros gc s st s' H I. destruct st as [| | |tid]; cbn [exec] in H.
-  - inversion H; subst; exact I.
-  - inversion H; subst; exact I.
-  - destruct (s_timer s); inversion H; subst; exact I.
-  - destruct (nth_error (s_threads s) tid) as [p|]; [|discriminate].
-    destruct p as [| | | | |g|g|r].
-    + destruct (lock_free s); [|discriminate]. destruct (s_state s) eqn:E; inversion H; subst; cbn; rewrite ?E; exact I.
-    + inversion H; subst; reflexivity.
-    + destruct (lock_free s); [|discriminate]. destruct (s_state s) eqn:E; inversion H; subst; cbn; rewrite ?E; exact I.
-    + inversion H; subst; reflexivity.
-    + destruct (lock_free s); [|discriminate]. destruct (s_state s) eqn:E; inversion H; subst; cbn; rewrite ?E; exact I.
-    + inversion H; subst; exact I.
-    + destruct (lock_free s); [|discriminate].
-      destruct (mstate_eqb (s_state s) MAwake || (gc && negb (g =? s_gen s)%N)); inversion H; subst; cbn; [exact I|reflexivity].
-    + discriminate.
-Qed.
 
-(** after every step of every interleaving the state file holds the state,
-    with POLLING written as SLEEPING *)
-Theorem persist_matches_modulo_polling : forall gc tr s, run gc init tr = Some s -> collapse (s_state s) = s_persist s.
-Proof.
-  intros gc tr. assert (G : forall s0 s, collapse (s_state s0) = s_persist s0 -> run gc s0 tr = Some s -> collapse (s_state s) = s_persist s).
-  { induction tr as [|st r IH]; intros s0 s I H; cbn [run] in H.
-    - inversion H; subst; exact I.
-    - destruct (exec gc s0 st) as [s1|] eqn:E; [|discriminate]. eapply IH; [|exact H]. eapply step_persist; eauto. }
-  intros s H. eapply G; [|exact H]. reflexivity.
-Qed.
+(** after every step of every interleaving and every restart *)
+Theorem persist_matches_modulo_polling : forall gc tr s, run gc init tr = Some s ->
+  s_persist s = s_state s \/ (s_state s = MPolling /\ s_persist s = MSleeping).
+Proof. intros gc tr s H. exact (run_pers_ok gc tr init s H init_pers_ok). Qed.
+
+(** a restart (graceful or not, through Start or LoadState) brings the new
+    process up in the state the file holds, and leaves the file as it is *)
+Theorem restart_resumes_persisted : forall gc s g st s', exec gc s (Restart g st) = Some s' ->
+  s_state s' = s_persist s' /\ s_persist s' = (if g then s_state s else s_persist s) /\ s_lock s' = None.
+Proof. intros gc s g st s' H. cbn [exec] in H. inversion H; subst; cbn. auto. Qed.
 
 (** the strict version fails: SLEEPING -> POLLING is a completed transition
     that is not persisted *)
@@ -129,7 +157,8 @@ Qed.
 
 Lemma step_gen_mono : forall gc s st s', exec gc s st = Some s' -> (s_gen s <= s_gen s')%N.
 Proof.
-  intros gc s st s' H. destruct st as [| | |tid]; cbn [exec] in H.
+  intros gc s st s' H. destruct st as [| | |tid| |gr sr]; cbn [exec] in H;
+    [| | | |inversion H; subst; cbn; lia|inversion H; subst; cbn; lia].
   - inversion H; subst; cbn; lia.
   - inversion H; subst; cbn; lia.
   - destruct (s_timer s); inversion H; subst; cbn; lia.
@@ -176,7 +205,9 @@ Proof.
     destruct (Nat.eqb tid tid') eqn:Eq.
     - destruct (nth_error (s_threads s) tid'); destruct Hp as [Hp|Hp]; try discriminate; inversion Hp; subst; [elim (N1 g')|elim (N2 g')]; reflexivity.
     - assert (g' <= s_gen s)%N by (apply (I tid' g'); exact Hp). lia. }
-  destruct st as [| | |tid]; cbn [exec] in H.
+  destruct st as [| | |tid| |gr sr]; cbn [exec] in H;
+    [| | | | |inversion H; subst; exfalso; unfold poll_at in Hp; cbn [s_threads] in Hp;
+               rewrite !nth_error_map in Hp; destruct (nth_error (s_threads s) tid') as [[]|]; cbn in Hp; destruct Hp; discriminate].
   - inversion H; subst. unfold poll_at in Hp; cbn [s_threads] in Hp.
     destruct Hp as [Hp|Hp]; apply nth_error_app_new in Hp as [Hp|Hp]; try discriminate; cbn; apply (I tid' g'); [left|right]; exact Hp.
   - inversion H; subst. unfold poll_at in Hp; cbn [s_threads] in Hp.
@@ -208,6 +239,8 @@ Proof.
       destruct (mstate_eqb (s_state s) MAwake || (gc && negb (g =? s_gen s)%N));
         inversion H; subst; (eapply Hset; [| |reflexivity]; intros; discriminate).
     + discriminate.
+  - inversion H; subst. unfold poll_at in Hp; cbn [s_threads] in Hp.
+    destruct Hp as [Hp|Hp]; apply nth_error_app_new in Hp as [Hp|Hp]; try discriminate; cbn; apply (I tid' g'); [left|right]; exact Hp.
 Qed.
 
 Lemma run_gens_ok : forall gc tr s s', run gc s tr = Some s' -> gens_ok s -> gens_ok s'.
@@ -307,3 +340,26 @@ Lemma refuted_dopoll_toctou :
   exists s, drun (mkd MPolling None []) [DReadState; DWakeCompletes; DDisconnect] = Some s /\
     d_state s = MAwake /\ d_events s = [EvWakeCompleted; EvDisconnectAll].
 Proof. eexists. split; [vm_compute; reflexivity|]. vm_compute. split; reflexivity. Qed.
+
+(** ** Histories that span restarts *)
+
+(** sleep; the process exits; a new manager loads SLEEPING; wake before any
+    poll: the wake is written (three writes: sleep, Stop(), wake) *)
+Example restart_then_wake_is_persisted :
+  exists s, run_fixed init [NewSleep; Run 0; Run 0; Restart true false; NewWake; Run 1; Run 1] = Some s /\
+    s_state s = MAwake /\ s_persist s = MAwake /\ s_writes s = 3%N.
+Proof. eexists. split; [vm_compute; reflexivity|]. vm_compute. auto. Qed.
+
+(** a restart in each of the three states, by crash and by Stop() *)
+Example restart_in_each_state :
+  (exists s, run_fixed init [Restart false true] = Some s /\ s_state s = MAwake /\ s_timer s = false) /\
+  (exists s, run_fixed init [NewSleep; Run 0; Run 0; Restart false true] = Some s /\ s_state s = MSleeping /\ s_timer s = true) /\
+  (* crash while polling: the file says SLEEPING, the new process sleeps and polls again *)
+  (exists s, run_fixed init [NewSleep; Run 0; Run 0; Fire; Run 1; Restart false true] = Some s /\
+             s_state s = MSleeping /\ s_persist s = MSleeping /\ s_timer s = true) /\
+  (* Stop() while polling writes POLLING; the new process comes up POLLING, its timer fires and the poll is skipped *)
+  (exists s, run_fixed init [NewSleep; Run 0; Run 0; Fire; Run 1; Restart true true; Fire; Run 2] = Some s /\
+             s_state s = MPolling /\ s_persist s = MPolling /\ s_timer s = false /\ nth_error (s_threads s) 2 = Some (Done RSkipped)).
+Proof.
+  repeat split; eexists; (split; [vm_compute; reflexivity|]); vm_compute; auto.
+Qed.
